@@ -633,6 +633,13 @@ func (g *dgen) dialogue() []*sx.Node {
 	}
 	g.vars = map[string][]string{"num": {"n1", "n2"}, "bool": {"b1", "b2"}, "str": {"s1", "s2"}}
 	nodes := []*sx.Node{}
+	dupOdds := 5
+	if g.cfg.visitLines {
+		dupOdds = 4
+	}
+	// a shadowed duplicate of a title will be added below: then every node ends in a counted jump to a node
+	// picked at random, so that the run walks past the duplicate and comes back to the title it shadows
+	willDup := g.r.Intn(dupOdds) == 0 && n > 1
 	for i, name := range g.nodes {
 		headers := []*sx.Node{}
 		if g.r.Intn(4) == 0 {
@@ -709,10 +716,10 @@ func (g *dgen) dialogue() []*sx.Node {
 			body = append(body, sx.Tag("declare", sx.Str("lc"), numLit(0)))
 		}
 		body = append(body, g.stmts(0)...)
-		if g.cfg.loopPct > 0 && g.r.Intn(100) < g.cfg.loopPct {
+		if g.cfg.loopPct > 0 && (g.r.Intn(100) < g.cfg.loopPct || willDup) {
 			// a counted loop: the statements above run again and again in one runner
 			to := name
-			if g.r.Intn(3) == 0 {
+			if g.r.Intn(3) == 0 || willDup {
 				to = g.pick(g.nodes)
 			}
 			body = append(body,
@@ -722,11 +729,7 @@ func (g *dgen) dialogue() []*sx.Node {
 		nodes = append(nodes, sx.Tag("node", sx.List(headers...), sx.List(body...)))
 	}
 	// duplicate title: FindNode returns the first one
-	dupOdds := 5
-	if g.cfg.visitLines {
-		dupOdds = 4
-	}
-	if g.r.Intn(dupOdds) == 0 && len(nodes) > 1 {
+	if willDup && len(nodes) > 1 {
 		// ... whatever its own headers say (the shadowed node's tracking header is nobody's business)
 		// (mostly a title that is not the last one's, placed right behind the node it shadows, so that jumps to
 		// the nodes after it walk past it)
